@@ -47,7 +47,7 @@ def conclude(pid, tier, seed, obls, infos, undecided_reasons, wall, write_eviden
     viol, known, undec = [], [], list(undecided_reasons)
     # Verus / PolyVC give no counterexample: search for a failing input on the real code
     WITNESS_MODES = {"c10_jubjub_fr": "c10_jubjub_fr", "c11_jubjub": "c11_jubjub", "c11_bls": "c11_bls",
-                     "c10_curve25519_fp": "c10_c25519_fp"}
+                     "c10_curve25519_fp": "c10_c25519_fp", "c16_zkir_routing": "c16_zkir"}
     for ob in obls:
         if ob.backend in ("verus", "polyvc") and getattr(ob, "unit_name", None) in WITNESS_MODES and not getattr(ob, "replay", None):
             resource = ob.status == UNDECIDED and re.search(r"rlimit|Resource limit|timed out", ob.detail or "")
@@ -63,9 +63,19 @@ def conclude(pid, tier, seed, obls, infos, undecided_reasons, wall, write_eviden
                     ob.detail += "\n(promoted from undecided: the witness search found a failing input on the real code)"
     for ob in obls:
         w = getattr(ob, "witness", None)
-        if ob.backend == "kani" and ob.status == FAILED and isinstance(w, dict) and not (getattr(ob, "replay", None) or {}).get("confirmed"):
+        if ob.backend == "kani" and ob.status == FAILED and isinstance(w, dict):
             import witness
-            witness.attach(ob, w["mode"], w["key"], seed, tier)
+            prev = getattr(ob, "replay", None) or {}
+            if not prev.get("confirmed"):
+                witness.attach(ob, w["mode"], w["key"], seed, tier)
+            elif w.get("always"):
+                # the Kani playback confirmed the failure on the sliced expression only: also look for an
+                # end-to-end failing input of the real function
+                hit = witness.attach(ob, w["mode"], w["key"], seed, tier)
+                ob.replay = dict(prev, confirmed=True, real_code_witness=ob.replay,
+                                 note="Kani concrete playback reproduces the failure on the sliced expression; "
+                                      + ("the witness program reproduces it end-to-end on the real crate" if hit else
+                                         "the witness program found no end-to-end failing input"))
     for ob in obls:
         if ob.status == FAILED:
             f = _match_known(ob, kf)
